@@ -43,6 +43,9 @@ def materialise(case):
             os.symlink("sub", os.path.join(proj, e))
         elif e == "src/linkdir_out":
             os.symlink("../outside", os.path.join(proj, e))
+        elif e == "src/readonly.rs":
+            put(e)
+            os.chmod(os.path.join(proj, e), 0o444)
         elif e == "src/hardlinked.rs":
             put(e)
             os.link(os.path.join(proj, e), os.path.join(proj, "outside", "hardlinked_copy.rs"))
